@@ -1,3 +1,247 @@
 package main
 
-func (r *runner) addCases(m *model, in *input, outs map[string][]string) {}
+// Correspondence cases: for sites where a generator walks a map and the order of the walk is visible in the
+// output, the order observed in the REAL output is printed next to the same keys in the order the model declares
+// them; Coq (Determ/Run.v) looks the site up in Gen.MapRanges and checks that the observed order is what the model
+// computes for the class the translator assigned (CollectSort: the byte-wise sorted keys; anything else: some
+// permutation of them).
+
+import (
+	"encoding/json"
+	"fmt"
+	"regexp"
+	"strings"
+
+	"verifharness/common"
+)
+
+const caseHeader = `From Coq Require Import String List NArith.
+Import ListNotations.
+Require Import Verif.Determ.MapOrder Verif.Determ.Run Verif.Gen.MapRanges Verif.Base.Harness.
+Local Open Scope string_scope.`
+const caseType = "string * nat * list string * list string"
+const caseFooter = `Definition M := Eval vm_compute in mismatches (c19_ok ranges) cases.
+Print M.`
+
+func gstrs(ss []string) string {
+	it := make([]string, len(ss))
+	for i, s := range ss {
+		it[i] = common.GString(s)
+	}
+	return "[" + strings.Join(it, ";") + "]"
+}
+
+func (r *runner) addCase(fn string, ord int, keys, obs []string, what string) {
+	if r.cases == nil {
+		r.cases = r.c.NewCases("C19", caseHeader, caseType, caseFooter, 400)
+	}
+	for _, s := range append(append([]string{}, keys...), obs...) {
+		for i := 0; i < len(s); i++ {
+			if s[i] < 0x20 || s[i] > 0x7e {
+				return // Coq string literals: printable ASCII only
+			}
+		}
+	}
+	r.cases.Add(fmt.Sprintf("(%s, %d, %s, %s)", common.GString(fn), ord, gstrs(keys), gstrs(obs)),
+		map[string]interface{}{"site": fmt.Sprintf("%s #%d", fn, ord), "what": what, "declared": keys, "observed": obs})
+	r.c.Hist("site:" + fn)
+}
+
+// filterTo keeps the elements of decl (in order, without repetition) that occur in the set of obs
+func filterTo(decl, obs []string) []string {
+	in := map[string]bool{}
+	for _, o := range obs {
+		in[o] = true
+	}
+	seen := map[string]bool{}
+	var out []string
+	for _, d := range decl {
+		if in[d] && !seen[d] {
+			seen[d] = true
+			out = append(out, d)
+		}
+	}
+	return out
+}
+
+var (
+	reBox     = regexp.MustCompile(`(?m)^box "([^"]*)" `)
+	rePackage = regexp.MustCompile(`(?m)^package "([^"]*)" \{`)
+	reClass   = regexp.MustCompile(`(?m)^class "([^"]*)" as _\d+ << \(D,orchid\) >> \{\n((?:\+ [^\n]*\n)*)\}`)
+	reMClass  = regexp.MustCompile(`(?m)^ class (\S+) \{`)
+)
+
+// split canon() output back into files
+func filesOf(canonOut string) map[string]string {
+	out := map[string]string{}
+	parts := strings.Split("\n"+canonOut, "\n=== ")
+	for _, p := range parts[1:] {
+		i := strings.Index(p, "\n")
+		if i < 0 {
+			continue
+		}
+		out[p[:i]] = p[i+1:]
+	}
+	return out
+}
+
+func submatches(re *regexp.Regexp, s string, g int) []string {
+	var out []string
+	for _, m := range re.FindAllStringSubmatch(s, -1) {
+		out = append(out, m[g])
+	}
+	return out
+}
+
+func mermaidClean(s string) string {
+	s = strings.ReplaceAll(s, " ", "")
+	return strings.ReplaceAll(s, ":", "_")
+}
+
+func (r *runner) addCases(m *model, in *input, outs map[string][]string) {
+	first := func(g string) string {
+		if o := outs[g]; len(o) > 0 && !strings.Contains(o[0], "PANIC: ") && !strings.Contains(o[0], "\nERROR: ") {
+			return o[0]
+		}
+		return ""
+	}
+	// 1. sequence diagram group boxes
+	var teams []string
+	for _, a := range m.Apps {
+		for _, at := range a.Attrs {
+			if at.K == m.Group {
+				teams = append(teams, at.V)
+			}
+		}
+	}
+	for _, g := range []string{"sd:app-groupby", "sd:endpoints-groupby"} {
+		for name, txt := range filesOf(first(g)) {
+			obs := submatches(reBox, txt, 1)
+			if len(obs) >= 2 {
+				r.addCase("sequencediagram.GenerateSequenceDiag", 1, filterTo(teams, obs), obs, g+" "+name)
+			}
+		}
+	}
+	// 2. clustered integration view: package blocks
+	var nss []string
+	for _, a := range m.Apps {
+		if i := strings.LastIndex(a.Name, " :: "); i > 0 {
+			nss = append(nss, a.Name[:i])
+		}
+	}
+	for name, txt := range filesOf(first("ints:clustered")) {
+		obs := submatches(rePackage, txt, 1)
+		if len(obs) >= 2 {
+			r.addCase("integrationdiagram.IntsDiagramVisitor.BuildClusterForIntsView", 2, filterTo(nss, obs), obs, "ints:clustered "+name)
+		}
+	}
+	// 3 + 4. OpenAPI3 export: `required` of every tuple type, `parameters` of every operation
+	for appName, txt := range filesOf(first("export:openapi3-json")) {
+		var doc struct {
+			Paths map[string]map[string]struct {
+				Parameters []struct {
+					Name string `json:"name"`
+				} `json:"parameters"`
+			} `json:"paths"`
+			Components struct {
+				Schemas map[string]struct {
+					Required []string `json:"required"`
+				} `json:"schemas"`
+			} `json:"components"`
+		}
+		if json.Unmarshal([]byte(txt), &doc) != nil {
+			continue
+		}
+		var a *app
+		for i := range m.Apps {
+			if m.Apps[i].Name == appName {
+				a = &m.Apps[i]
+			}
+		}
+		if a == nil {
+			continue
+		}
+		for _, t := range a.Types {
+			if t.Kind != "type" {
+				continue
+			}
+			var req []string
+			for _, f := range t.Fields {
+				if !strings.HasSuffix(f.Type, "?") {
+					req = append(req, f.Name)
+				}
+			}
+			if sc, ok := doc.Components.Schemas[t.Name]; ok && len(req) >= 2 && len(sc.Required) == len(req) {
+				r.addCase("exporter.OpenAPI3Exporter.exportType", 2, req, sc.Required, "required of "+appName+"."+t.Name)
+			}
+		}
+		for _, re := range a.Rest {
+			path := regexp.MustCompile(` <: \w+`).ReplaceAllString(re.Path, "")
+			op, ok := doc.Paths[path][strings.ToLower(re.Method)]
+			if !ok {
+				continue
+			}
+			var decl, obs []string
+			for _, q := range re.Query {
+				decl = append(decl, q.Name)
+			}
+			for _, h := range re.Header {
+				decl = append(decl, h.Name)
+			}
+			for _, p := range op.Parameters {
+				obs = append(obs, p.Name)
+			}
+			decl = filterTo(decl, obs)
+			if len(decl) >= 2 && len(decl) == len(obs) {
+				r.addCase("exporter.OpenAPI3Exporter.GenerateOpenAPI3", 4, decl, obs, "parameters of "+appName+" "+re.Method+" "+path)
+			}
+		}
+	}
+	// 5. PlantUML data model: attribute order inside each class
+	fieldsOf := map[string][]string{}
+	kindOf := map[string]string{}
+	for _, a := range m.Apps {
+		for _, t := range a.Types {
+			var fs []string
+			for _, f := range t.Fields {
+				fs = append(fs, f.Name)
+			}
+			fieldsOf[a.Name+"."+t.Name] = fs
+			kindOf[a.Name+"."+t.Name] = t.Kind
+		}
+	}
+	for _, txt := range filesOf(first("datamodel:direct")) {
+		for _, mt := range reClass.FindAllStringSubmatch(txt, -1) {
+			var obs []string
+			for _, l := range strings.Split(strings.TrimSpace(mt[2]), "\n") {
+				if f := strings.Fields(l); len(f) >= 2 {
+					obs = append(obs, f[1])
+				}
+			}
+			decl, ok := fieldsOf[mt[1]]
+			if ok && len(obs) >= 2 && len(filterTo(decl, obs)) == len(obs) {
+				site := "datamodeldiagram.DataModelView.DrawTuple"
+				if kindOf[mt[1]] == "table" {
+					site = "datamodeldiagram.DataModelView.DrawRelation"
+				}
+				r.addCase(site, 1, filterTo(decl, obs), obs, "attributes of "+mt[1])
+			}
+		}
+	}
+	// 6. Mermaid data diagram: class order
+	if txt := first("mermaid:data-full"); txt != "" {
+		obs := submatches(reMClass, txt, 1)
+		var decl []string
+		for _, a := range m.Apps {
+			for _, t := range a.Types {
+				decl = append(decl, mermaidClean(a.Name)+"."+t.Name)
+			}
+			for _, e := range a.Enums {
+				decl = append(decl, mermaidClean(a.Name)+"."+e.Name)
+			}
+		}
+		if d := filterTo(decl, obs); len(d) >= 2 && len(d) == len(obs) {
+			r.addCase("mermaid.SortedKeys", 1, d, obs, "classes of the Mermaid data diagram")
+		}
+	}
+}
